@@ -10,8 +10,8 @@
    number of entries of both families in any order, any name-server list, ports,
    user/group, udp flag, mark) satisfying wf_plan, every packet. *)
 From Coq Require Import List NArith ZArith Ascii Bool String.
-From SV Require Import Lib.Bytes Model.FwRules Model.FwWalk
-  Proofs.FwRules_lemmas Proofs.FwTproxy_lemmas Proofs.FwPf_lemmas.
+From SV Require Import Lib.Bytes Model.FwRules Model.FwWalk Model.FwStale
+  Proofs.FwRules_lemmas Proofs.FwTproxy_lemmas Proofs.FwPf_lemmas Proofs.FwStale_lemmas.
 Import ListNotations.
 Local Open Scope N_scope.
 
@@ -249,6 +249,44 @@ Theorem c03_pf_empty_subnets_crash : forall os pl f,
 Proof. exact pf_rules_crash. Qed.
 Print Assumptions c03_pf_empty_subnets_crash.
 
+(* ------------------------------------- own objects left by a killed session *)
+(* A session that is killed never runs its tear-down: the table / chains / anchor
+   named for its port stay.  The next session on that port must install rules
+   that decide by ITS entries alone.  nft.py does not call restore_firewall at
+   set-up: it relies on `add table` / `add chain` being idempotent and on
+   `flush chain <own chain>`.  For every content s6 / s4 of the session's own
+   tables (any rules in the regular chain, any number of jumps in the two hook
+   chains — a family the plan does not set up is not touched and must be empty),
+   the verdict after set-up is the verdict on a clean packet filter; hence
+   c03_nft_tcp / c03_nft_dns / c03_nft_udp hold on such a state too.  (The
+   state the harness walks is the one the real commands of both sessions leave
+   in the kernel model of C04, coq/Model/FwLife.v.) *)
+Theorem c03_nft_stale_own_objects : forall pl s6 s4 p,
+  (fam_active pl V6 = false -> s6 = nft_nothing) ->
+  (fam_active pl V4 = false -> s4 = nft_nothing) ->
+  nft_verdict_on s6 s4 (nft_cmds pl V6) (nft_cmds pl V4) p = nft_verdict pl p.
+Proof. exact nft_verdict_stale. Qed.
+Print Assumptions c03_nft_stale_own_objects.
+
+Theorem c03_nft_stale_table : forall pl f s p,
+  nft_table_outcome_on s (nft_setup pl f) p = nft_table_outcome (nft_setup pl f) p.
+Proof. exact nft_table_stale. Qed.
+Print Assumptions c03_nft_stale_table.
+
+(* nat / tproxy: restore_firewall at the start of setup_firewall removes hooks
+   and chains (its effect on every state is the life cycle proved under C04);
+   inside the command list of C03 the part that empties is `-N c` + `-F c`:
+   whatever an own chain held before, afterwards it holds this plan's rules *)
+Theorem c03_ipt_own_chains_emptied : forall pl f acc,
+  rules_of (nat_setup pl f) TNat CMain acc = rules_of (nat_setup pl f) TNat CMain [] /\
+  (forall c, c = CMark \/ c = CTproxy \/ c = CDivert ->
+     rules_of (tproxy_setup pl f) TMangle c acc = rules_of (tproxy_setup pl f) TMangle c []).
+Proof.
+  intros pl f acc. split; [apply nat_own_chain_emptied|].
+  intros c Hc. apply tproxy_own_chain_emptied. exact Hc.
+Qed.
+Print Assumptions c03_ipt_own_chains_emptied.
+
 (* ----------------------------------------------------- examples / witnesses *)
 (* 10.0.0.0/8 include, 10.1.2.0/24 exclude, 10.1.2.3/32:8080 include,
    name server 10.0.0.53; IPv6: 2404:6800:4004:80c::/64 include, name server
@@ -314,4 +352,16 @@ Print Assumptions c03_tproxy_dns_refuted.
 Example c03_ex_f18 :
   f18_class ex_plan f18_pkt = true /\ ns_hit ex_plan f18_pkt = false /\
   tproxy_verdict ex_plan f18_pkt = Divert 1026 /\ nft_verdict ex_plan f18_pkt = Untouched.
+Proof. vm_compute. repeat split; reflexivity. Qed.
+
+(* the theorem c03_nft_stale_table rests on `flush chain <own chain>`: with that
+   one command left out, a rule of the killed session (192.168.0.0/16 included)
+   still diverts 192.168.1.1:80 although the running plan has no such entry *)
+Definition ex_left : nft_left :=
+  mkLeft [[NTcpAny V4; NDaddr V4 (tx "192.168.0.0") 3232235520 16; NRedirect 12300]] 1 1.
+Example c03_ex_nft_flush_needed :
+  nft_table_outcome_on ex_left (nft_setup_noflush ex_plan V4) (ex_pkt 3232235777 80 Tcp) = ORedirect 12300 /\
+  nft_table_outcome (nft_setup_noflush ex_plan V4) (ex_pkt 3232235777 80 Tcp) = OFall 0 /\
+  nft_table_outcome_on ex_left (nft_setup ex_plan V4) (ex_pkt 3232235777 80 Tcp) = OFall 0 /\
+  spec_interceptb (pl_entries ex_plan) (ex_pkt 3232235777 80 Tcp) = false.
 Proof. vm_compute. repeat split; reflexivity. Qed.
